@@ -1210,10 +1210,10 @@ fire("c18-min-array-scalar-copied-from-max", "C18", ARRAY,
 
 
 fire("c05-unfold-freshness-guard-all-siblings", "C05", OPTIMIZER,
-     "        if v.reduced_vars and any(v.reduced_vars & t.input_vars for t in siblings):", "        if v.reduced_vars and all(v.reduced_vars & t.input_vars for t in siblings):", "R05.6", "unfold_contraction_generic_tuple")
+     "            or any(v.reduced_vars & t.input_vars for t in siblings)\n", "            or all(v.reduced_vars & t.input_vars for t in siblings)\n", "R05.6", "unfold_contraction_generic_tuple")
 silent("c05-s-unfold-freshness-guard-not-all-disjoint", "C05", OPTIMIZER,
-       "        if v.reduced_vars and any(v.reduced_vars & t.input_vars for t in siblings):",
-       "        if v.reduced_vars and not all(v.reduced_vars.isdisjoint(t.input_vars) for t in siblings):")
+       "            or any(v.reduced_vars & t.input_vars for t in siblings)\n",
+       "            or not all(v.reduced_vars.isdisjoint(t.input_vars) for t in siblings)\n")
 fire("c15-logsumexp-shift-over-whole-array", "C15", ARRAY,
      "    amax = np.amax(x, axis=axis, keepdims=True)\n    # treat the case x = -inf", "    amax = np.amax(x, keepdims=True)\n    # treat the case x = -inf", "R15.15", "logsumexp")
 fire("c11-rename-clash-tested-against-subs-only", "C11", TENSOR,
@@ -1221,6 +1221,31 @@ fire("c11-rename-clash-tested-against-subs-only", "C11", TENSOR,
 fire("c02-mixture-merged-under-any-reduction", "C02", CNF,
      "def normalize_contraction_commute_joint(red_op, bin_op, reduced_vars, mixture, other):\n    if red_op is not ops.null and mixture.red_op not in (ops.null, red_op):\n        return None  # the two reductions differ and cannot be merged\n",
      "def normalize_contraction_commute_joint(red_op, bin_op, reduced_vars, mixture, other):\n", "R02.21", "normalize_contraction_commute_joint")
+
+
+# ---- round 6 third wave: disjoint binders, results keep the reduction, unit filter
+for _p, _r in (("C02", "R02.21"), ("C05", "R05.11"), ("C08", "R08.18")):
+    fire(f"{_p.lower()}-unfold-merges-same-binder", _p, OPTIMIZER,
+         "            v.reduced_vars & reduced_vars\n            or any(", "            any(", _r, "unfold_contraction_generic_tuple")
+    fire(f"{_p.lower()}-normalize-fuses-same-binder", _p, CNF,
+         "        if reduced_vars & v.reduced_vars:\n            continue\n", "", _r, "normalize_contraction_generic_tuple")
+    silent(f"{_p.lower()}-s-disjoint-binders-spelled-isdisjoint", _p, CNF,
+           "        if reduced_vars & v.reduced_vars:\n            continue\n", "        if not reduced_vars.isdisjoint(v.reduced_vars):\n            continue\n")
+fire("c02-commute-joint-merges-same-binder", "C02", CNF,
+     "    if reduced_vars & mixture.reduced_vars:\n        return None  # two reductions over the same variable do not merge\n    return Contraction(\n        mixture.red_op if red_op is ops.null else red_op,\n        bin_op,\n        reduced_vars | mixture.reduced_vars,\n        *(mixture.terms + (other,)),",
+     "    return Contraction(\n        mixture.red_op if red_op is ops.null else red_op,\n        bin_op,\n        reduced_vars | mixture.reduced_vars,\n        *(mixture.terms + (other,)),", "R02.21", "normalize_contraction_commute_joint")
+for _p, _r in (("C02", "R02.22"), ("C08", "R08.17")):
+    fire(f"{_p.lower()}-canonical-order-returns-plain-product", _p, CNF,
+         "    if any(v is not vv for v, vv in zip(terms, new_terms)):\n        return Contraction(red_op, bin_op, reduced_vars, *new_terms)\n",
+         "    if any(v is not vv for v, vv in zip(terms, new_terms)):\n        return bin_op(*new_terms)\n", _r, "normalize_contraction_commutative_canonical_order")
+    silent(f"{_p.lower()}-s-canonical-order-via-local", _p, CNF,
+           "    if any(v is not vv for v, vv in zip(terms, new_terms)):\n        return Contraction(red_op, bin_op, reduced_vars, *new_terms)\n",
+           "    if any(v is not vv for v, vv in zip(terms, new_terms)):\n        rv = reduced_vars\n        return Contraction(red_op, bin_op, rv, *new_terms)\n")
+fire("c08-unit-filter-drops-every-number", "C08", CNF,
+     "            if not (isinstance(t, Number) and t.data == ops.UNITS[bin_op])\n        )\n        if not new_terms:", "            if not isinstance(t, Number)\n        )\n        if not new_terms:", "R08.5", "normalize_contraction_generic_tuple")
+silent("c08-s-unit-filter-via-helper-lambda", "C08", CNF,
+       "        new_terms = tuple(\n            t\n            for t in terms\n            if not (isinstance(t, Number) and t.data == ops.UNITS[bin_op])\n        )\n        if not new_terms:",
+       "        unit = ops.UNITS[bin_op]\n        new_terms = tuple(\n            t for t in terms if not (isinstance(t, Number) and t.data == unit)\n        )\n        if not new_terms:")
 
 # ===== derived variants: must stay at the END of this file (they enumerate every rename() variant above) =====
 # `if c: A else: B` -> `if not c: B else: A` in the anchor functions (behaviour-preserving)
